@@ -186,14 +186,16 @@ def run(ctx):
             continue
         fin = b.methods.get("finalize")
         ok = False
-        if fin is not None:
-            for n in ast.walk(fin.node):
-                if isinstance(n, ast.If) and "len(" in A.unparse(n.test) and "nom_data" in A.unparse(n.test):
+        for meth in (b.methods.get("append"), fin, col):
+            if meth is None:
+                continue
+            for n in ast.walk(meth.node):
+                if isinstance(n, ast.If) and "len(" in A.unparse(n.test):
                     rs = [r for r in ast.walk(n) if isinstance(r, ast.Raise)]
                     if rs and _exc(rs[0]) == "InvalidModifier":
                         ok = True
         if ok:
-            ctx.holds(r4, f"{b.relpath}::{b.name}.finalize", "len(modifier data) vs len(nominal) -> InvalidModifier")
+            ctx.holds(r4, f"{b.relpath}::{b.name}", "a length comparison raising InvalidModifier exists (append / finalize); which inputs it refuses is decided by interpretation below")
         else:
             ctx.violated(r4, fin or b, "bin-count check", f"{b.name} consumes per-bin modifier data but does not compare its length with the sample's bin count (its sibling builders do): a wrong-length modifier is accepted or fails with a foreign exception", expected="if len(nom_data) != len(<modifier data>): raise InvalidModifier", node=(fin or b).node)
     nb = repo.method(PDF, "_nominal_builder", "append")
